@@ -694,6 +694,7 @@ func init() {
 		Rules: []Rule{
 			{ID: "C10-sign", Floor: 16, Run: c10Sign, Text: "[PROV]+[DOM]+[WHO] sign-after-build over the commitment of the same object; no late mutation; same object sent and stored"},
 			{ID: "C10-commit", Floor: 17, Run: c10Commit, Text: "[LAYOUT]+[LIST] byte layout of Hash / PPHashToSign / FEPHashToSign; per-exit lists: one element per exit, whole range, in order, own storage"},
+			{ID: "C10-alias", Floor: 4, Run: c10Alias, Text: "[LIST] repository-wide: no []byte list element shares a loop-carried buffer"},
 			{ID: "C10-cover", Floor: 5, Run: c10Cover, Text: "computed commitment read set ⊆ wire ∩ JSON"},
 			{ID: "C10-wire", Floor: 40, Run: c10Wire, Text: "[FIELDMAP] proto conversion field by field"},
 			{ID: "C10-json", Floor: 35, Run: c10JSON, Text: "codec key sets and per-field assignment"},
@@ -791,5 +792,42 @@ func commitRule(c *core.Ctx, rule string, only map[string]bool) {
 			c.Decide(g == lw.elem, rule, ll+"#element", e.At.Pos(), "element i = "+g)
 			c.Decide(e.Fresh, rule, ll+"#own-storage", e.At.Pos(), "each element lives in storage of its own ("+e.Why+")")
 		}
+	}
+}
+
+// c10Alias: repository-wide: a []byte stored as an element of a list inside a loop must not share its backing array with
+// the elements stored by other iterations (otherwise every element ends up holding the last iteration's bytes and
+// the hash / message built from the list no longer depends on the earlier entries).
+func c10Alias(c *core.Ctx) {
+	const rule = "C10-alias"
+	n := 0
+	for _, fn := range c.AllFuncs() {
+		for k, e := range core.SliceElemWrites(fn) {
+			n++
+			ok := e.Fresh
+			why := e.Why
+			if !ok {
+				// values that do not own a buffer are fine: parameters, fields, results of loads (no reuse across iterations)
+				switch v := e.Val.(type) {
+				case *ssa.Parameter, *ssa.FieldAddr, *ssa.Field, *ssa.Extract, *ssa.Lookup, *ssa.Index:
+					ok, why = true, "not a buffer built in the loop"
+				case *ssa.UnOp:
+					ok, why = true, "loaded value"
+				case *ssa.Slice:
+					// x[a:b] of a value that itself is not loop carried and is not written in the loop: a view per iteration
+					if _, isPhi := v.X.(*ssa.Phi); !isPhi {
+						if _, isAlloc := v.X.(*ssa.Alloc); !isAlloc {
+							if _, isCall := v.X.(*ssa.Call); !isCall {
+								ok, why = true, "view of an existing value"
+							}
+						}
+					}
+				}
+			}
+			c.Decide(ok, rule, fmt.Sprintf("%s#elem-%d", core.ShortFn(fn), k), e.At.Pos(), "list element in storage of its own: "+why)
+		}
+	}
+	if n == 0 {
+		c.Undecide(rule, "repository#list-element-writes", 0, "no list-element writes found: the scan is broken")
 	}
 }
